@@ -154,13 +154,26 @@ class Party:
         # directional variograms stacked one after the other (whatever the caller's memory
         # layout), lat-lon lags converted to chordal distances once
         mc = self.mc
-        want_y = np.asarray(mc.y, dtype=np.double).reshape(-1)
+        want_y = np.asarray(getattr(mc, "y_handed", mc.y), dtype=np.double).reshape(-1)
         want_x = np.tile(mc.x, mc.dim) if mc.kind == "dir" else (
             great_circle_to_chordal(mc.x, mc.true.geo_scale) if mc.kind == "latlon" else mc.x)
         if not close(np.asarray(ydata, dtype=np.double).reshape(-1), want_y, rtol=1e-13) or \
                 not close(self.x.reshape(-1), want_x, rtol=1e-13):
             raise Violation("C10.data_handed_to_optimizer", kind=mc.kind,
                             layout=self.op["kwargs"].get("data_layout"))
+        wv = getattr(mc, "w_handed", None)
+        if wv is not None:
+            # weights given per bin: the optimizer gets sigma = 1 / weight per data point (the
+            # bins repeated per direction), a weight of zero takes the bin out (sigma = inf)
+            with np.errstate(divide="ignore"):
+                want_s = 1.0 / (np.tile(wv, mc.dim) if mc.kind == "dir" else wv)
+            got_s = kw.get("sigma")
+            if got_s is None or not close(np.asarray(got_s, dtype=np.double).reshape(-1),
+                                          want_s, rtol=1e-13):
+                raise Violation("C10.weights_handed_to_optimizer", kind=mc.kind,
+                                weights=self.op["kwargs"].get("weights"),
+                                zero_weights=int(np.sum(wv == 0)))
+            mc.ctx.probe("sigma_checked")
         if len(self.p0) != self.expect.n:
             raise Violation("C10.param_count", got=len(self.p0), want=self.expect.n)
         if np.any(self.p0 <= lo) or np.any(self.p0 >= hi):
@@ -463,7 +476,13 @@ class Machine:
         if self.kind == "dir":
             r = rng.random()
             kw["anis"] = True if r < 0.6 else (False if r < 0.8 else list(t["anis"]))
-        kw["weights"] = rng.choice([None, None, "inv", "array", "callable", "list"])
+        kw["weights"] = rng.choice([None, None, "inv", "array", "callable", "list", "mask01",
+                                    "mask01"])
+        if kw["weights"] == "mask01":
+            # counts-like weights: one or two bins carry weight 0 and a garbage value (the
+            # documented use: weights=counts with empty bins); they must not take part
+            nb = len(self.x)
+            kw["mask_bins"] = sorted(rng.sample(range(2, nb - 1), min(2, max(1, nb // 6))))
         kw["init_guess"] = rng.choice(["current", "current", "dict", "default"] if sim
                                       else ["current", "current", "dict"])
         kw["method"] = rng.choice(["trf", "trf", "dogbox"])
@@ -565,6 +584,10 @@ class Machine:
             call["weights"] = 1.0 / (1.0 + self.x / self.x.max())
         elif w == "list":  # documented: "list: weights given per bin"
             call["weights"] = (1.0 / (1.0 + self.x / self.x.max())).tolist()
+        elif w == "mask01":
+            wv = np.ones(len(self.x))
+            wv[[i for i in kw.get("mask_bins", []) if 0 <= i < len(wv)]] = 0.0
+            call["weights"] = wv
         elif w == "callable":
             call["weights"] = lambda x: 1.0 / (1.0 + x)
         elif w == "inv":
@@ -585,7 +608,7 @@ class Machine:
             vb, nb = exp.bounds["var"], exp.bounds["nugget"]
             if not (vb[0] + nb[0] <= exp.sill <= vb[1] + nb[1]):
                 raise Inapplicable("sill outside bounds")
-            if exp.st["nugget"] < nb[0] or exp.st["var"] <= 0 or \
+            if exp.st["nugget"] < nb[0] or exp.st["var"] <= max(0.0, vb[0]) or \
                     exp.st["nugget"] > nb[1] or exp.st["var"] > vb[1]:
                 raise Inapplicable("fixed var/nugget not compatible with the sill")
         if exp.n == 0:
@@ -596,6 +619,11 @@ class Machine:
         gsfit.curve_fit = party
         scipy.optimize.curve_fit = party
         xd, yd = self.x.copy(), self.y.copy()
+        if w == "mask01":
+            yd[..., np.flatnonzero(call["weights"] == 0.0)] = 0.0   # garbage in the empty bins
+        self.y_handed = yd.copy()
+        self.w_handed = np.asarray(call["weights"], dtype=np.double).copy() \
+            if w in ("array", "list", "mask01") else None
         lay = kw.get("data_layout", "C")
         if lay == "F" and yd.ndim == 2:
             yd = np.asfortranarray(yd)          # e.g. the transpose of an (n_bins, dim) table
@@ -748,7 +776,8 @@ class Machine:
             # (mean of the data): that is not "a start near the truth"
             self.ctx.probe("recovery.start_on_bound_not_near_truth")
             return
-        if kw.get("weights") is not None:
+        masked = kw.get("weights") == "mask01"
+        if kw.get("weights") is not None and not masked:
             # weights rescale the residuals (1/(1+x) with x in km is ~1e-3) and scipy's
             # absolute gtol=1e-8 then stops far from the optimum: recovery is only demanded
             # from unweighted fits; the final-state invariants above hold for all fits
@@ -762,7 +791,8 @@ class Machine:
         smooth = t["cls"] in SMOOTH
         # compact-support models have a kink at the range: a local optimizer may stall next to
         # the optimum (traced: r2 = 0.998), so only a coarse threshold is sound for them
-        if not r2 >= (1 - 1e-6 if smooth else 0.99):
+        # (r2 is computed over all bins: with garbage in zero-weight bins it says nothing)
+        if not masked and not r2 >= (1 - 1e-6 if smooth else 0.99):
             raise Violation("C10.recovery.r2", r2=float(r2), cls=t["cls"], kind=self.kind,
                             method=kw.get("method"), loss=kw.get("loss"))
         if not smooth:
